@@ -141,6 +141,11 @@ def check(index, ctx):
                 continue
             ops = sops(r)
             srt = [e for e in ops if e["sop"] in ("sort", "msort", "argsort") and e["in_origin"] == ["matrix"]]
+            any_sort = [e for e in ops if e["sop"] in ("sort", "msort", "argsort")]
+            if len(srt) == 0 and any_sort:
+                ctx.violated("T", "TrimmedMean.forward: sort of the matrix", f"`{any_sort[0]['text'][:60]}` sorts a value derived from the matrix ({any_sort[0]['in_origin']}), not the raw matrix: "
+                             "what is trimmed is not the b largest and b smallest entries of each column", any_sort[0]["loc"])
+                continue
             if len(srt) == 0:
                 # no sort: successive partial selections along the rows — topk(k, largest=False) keeps ranks [lo, lo + k) of what it is given, topk(k, largest=True) keeps
                 # [hi - k, hi); the mean does not depend on the order of the kept entries
@@ -168,6 +173,17 @@ def check(index, ctx):
                                 derivation={"start": repr(lo_), "stop": repr(hi_), "ops": [e["text"] for e in chain_]})
                     ctx.require(okr and tuple(r.value.axes) == ("C",) and red[0]["id"] in r.value.origin, "T", "TrimmedMean.forward: mean over the trimmed window", "single mean over the row axis of the kept entries",
                                 "the kept entries are not reduced by a single mean over the row axis", red[0]["loc"] if red else chain_[-1]["loc"])
+                    continue
+                tot_ = [e for e in ops if e["sop"] == "reduce" and e.get("fn") in ("sum", "mean", "nansum") and "R" in (e.get("over") or []) and e["in_origin"] == ["matrix"] and e["id"] in r.value.origin]
+                if tot_:
+                    ctx.violated("T", "TrimmedMean.forward: the result is computed from the kept entries only", f"`{tot_[0]['text'][:70]}` reduces ALL rows of a column — including the up to "
+                                 "trim_number arbitrary ones — and that total reaches the result: removing the extremes from it afterwards cancels catastrophically when they are many orders of "
+                                 "magnitude larger than the honest entries, so the output leaves the range of the untouched rows", tot_[0]["loc"])
+                    continue
+                cut_ = [e for e in ops if e["sop"] in ("slice", "narrow") and e.get("axis") == "R" and e["in_origin"] == ["matrix"]]
+                if cut_:
+                    ctx.violated("T", "TrimmedMean.forward: sort of the matrix", f"`{cut_[0]['text'][:70]}` takes rows of the matrix by POSITION — nothing orders the entries of a column first: the rows "
+                                 "dropped are the first and last ones given, not the largest and smallest entries", cut_[0]["loc"])
                     continue
                 ctx.undecided("T", "TrimmedMean.forward: sort of the matrix", "neither a sort of the raw matrix nor a chain of partial selections (topk) along the rows was recognised", cls.loc())
                 continue
